@@ -272,6 +272,14 @@ static void c11_tables(Case& cs) {
       verify_all(blk, tm, "after assignment");
       continue;
     }
+    if (op == 18 && c.coin()) {   // parameters installed on a block that holds table entries but no items yet: allowed, and the tables stay
+      BlockParameters nbp; nbp.storage_parameters.max_block_items = (uint64_t)c.range(1, 50);
+      bool ok = blk.set_block_parameters(nbp, (index_t)c.range(0, 3));
+      VF_CHECK(ok, "sig=c11.set_block_parameters set_block_parameters() refused on a block without items");
+      tr << "set_block_parameters\n";
+      verify_all(blk, tm, "after set_block_parameters");
+      continue;
+    }
     if (op == 19) {           // clear
       blk.clear();
       for (auto& m : tm) { m.idx.clear(); m.at.clear(); }
